@@ -196,6 +196,12 @@ fn run(line: &str) -> String {
         let n = LOG.with(|l| l.borrow().len());
         let out = format!("ret={} events=({})", ret, events);
         // a guard that is never started never completes
+        // a call-site `when:` replaces the runtime's filter
+        let enabled = match form {
+            "bwhenf" => false,
+            "bwhent" => true,
+            _ => enabled,
+        };
         let expected = if enabled && form != "bunstarted" { 1 } else { 0 };
         Some(if n == expected { out } else { format!("{}\tFAIL:span-events={}-expected={}", out, n, expected) })
     })()
